@@ -37,4 +37,4 @@ def register(reg):
                                                       'implies(k in self.db.g_map and k != STATEKEY, fid(k) <= utxo_flush_count)))'),
                  ('unfinished-compaction-forgotten-unless-compacting', 'implies(not compacting, self.comp_cursor == -1)'),
                  ('returns-the-scrubbed-count', 'result == self.flush_count')],
-        props=['C04', 'C14'])
+        portfolio=True, props=['C04', 'C14'])
